@@ -194,16 +194,27 @@ def coq_build():
             if rc != 0:
                 return False, out, ["Makefile"]
         rc, out = sh("make -k -j16", cwd=COQ, timeout=3000)
-    failed = re.findall(r'File "\./(theories/\w+\.v|gen/\w+\.v)", line \d+, characters [\d-]+:\nError', out)
-    failed = sorted(set(failed))
-    if rc != 0 and not failed:
-        failed = ["(make failed)"]
+        failed = re.findall(r'File "\./(theories/\w+\.v|gen/\w+\.v)", line \d+, characters [\d-]+:\nError', out)
+        failed = sorted(set(failed))
+        if rc != 0 and not failed:
+            failed = ["(make failed)"]
+        if rc != 0:
+            # make -k leaves the old .vo of a file that failed and of everything that depends on it: remove them, so
+            # that nothing stale can be loaded (the theorems of properties that do not depend on the failed file
+            # have been rebuilt and stay checkable)
+            rc2, todo = sh("make -k -n", cwd=COQ, timeout=300)
+            for fn in set(re.findall(r'(theories/\w+|gen/\w+)\.v\b', todo)) | set(f[:-2] for f in failed if f.endswith(".v")):
+                for ext in (".vo", ".vok", ".vos", ".glob"):
+                    try:
+                        os.remove(os.path.join(COQ, fn + ext))
+                    except OSError:
+                        pass
     return rc == 0, out, failed
 
 
 def theorem_names(prop_id):
-    """Names of the property's theorems in Properties.v (prefix <id>_)."""
-    src = open(os.path.join(COQ, "theories", "Properties.v")).read()
+    """Names of the property's theorems in theories/P_<id>.v (prefix <id>_)."""
+    src = open(os.path.join(COQ, "theories", "P_%s.v" % prop_id)).read()
     return re.findall(r'^Theorem (%s_\w+)' % prop_id, src, re.M)
 
 
@@ -214,7 +225,7 @@ def audit(prop_id, extra_requires=()):
     d = os.path.join(WORK, prop_id)
     os.makedirs(d, exist_ok=True)
     path = os.path.join(d, "Audit_%s.v" % prop_id)
-    lines = ["From NTRIP Require Import Properties."]
+    lines = ["From NTRIP Require Import P_%s." % prop_id]
     for n in names:
         lines.append('Goal True. idtac "BEGIN %s". exact I. Qed.' % n)
         lines.append("Print Assumptions %s." % n)
@@ -445,9 +456,8 @@ def step_A(res, need_files=()):
         res.proof_notes.append("genfacts failed:\n" + outf[-3000:])
     okc, outc, failed = coq_build()
     res.proof["failed_files"] = failed
-    if not okc:
-        res.proof_ok = False
-        res.proof_notes.append("coq build failed in: %s\n%s" % (failed, outc[-3000:]))
+    # a file that no longer builds matters to this property only if its own theorem file P_<id> (or something
+    # that file depends on) is affected; that is decided by the audit below, which loads P_<id> and nothing else
     gate = grep_gate()
     res.proof["gate"] = gate
     if gate:
@@ -459,7 +469,8 @@ def step_A(res, need_files=()):
     res.proof["axioms"] = a["axioms"]
     if a["rc"] != 0 or len(a["discharged"]) != len(a["theorems"]) or not a["theorems"]:
         res.proof_ok = False
-        res.proof_notes.append("audit failed:\n" + a["log"][-2000:])
+        res.proof_notes.append("the theorems of %s no longer check (files that failed to build: %s):\n%s\n%s" %
+                               (res.prop_id, failed, a["log"][-2000:], "" if okc else outc[-3000:]))
     okm, outm = build_model()
     if not okm:
         res.corr_ok = False
